@@ -270,6 +270,14 @@ impl Stream for Exhaustive
 	}
 }
 
+/// the source of one random statement tree (also compiled to IR by C02)
+pub fn random_source(c: &mut Choices) -> String
+{
+	let mut budget = 40;
+	let body = treegen::random_seq(c, grammar(), &mut budget, 6, 10);
+	render(&body)
+}
+
 struct RandomTrees;
 impl Stream for RandomTrees
 {
